@@ -8,7 +8,9 @@ package main
 
 import (
 	"go/ast"
+	"go/token"
 	"go/types"
+	"strings"
 )
 
 func sortParallelRule(w *World, r *Result, only func(fi *FuncInfo) bool) int {
@@ -24,6 +26,12 @@ func sortParallelRule(w *World, r *Result, only func(fi *FuncInfo) bool) int {
 				return true
 			}
 			fn := calleeOf(info, call)
+			if fn != nil && (fn.FullName() == "slices.SortFunc" || fn.FullName() == "slices.SortStableFunc") {
+				// the comparator receives the elements themselves: nothing can be read by position
+				n++
+				r.ok("SORT-PAR", fi.Name, fn.Name()+"("+render(info, call.Args[0], nil)+")", w.Pos(call.Pos()), "the comparator is given the two elements, not their positions", true)
+				return true
+			}
 			if fn == nil || (fn.FullName() != "sort.Slice" && fn.FullName() != "sort.SliceStable") {
 				return true
 			}
@@ -104,4 +112,104 @@ func callbackOf(w *World, fi *FuncInfo, e ast.Expr) (body *ast.BlockStmt, info *
 		}
 	}
 	return nil, nil, nil
+}
+
+// sortSpec describes one sorting call whatever its API: which slice is sorted, by which key of an element (rendered
+// with the element as `$e`), in which direction, and whether the algorithm is stable.
+type sortSpec struct {
+	call   *ast.CallExpr
+	slice  ast.Expr
+	key    string // "$e.Pos()", "$e.name.String()", "$e" … ("" when the comparator is not a plain key comparison)
+	asc    bool
+	stable bool
+	api    string
+}
+
+// sortSpecOf recognises sort.Slice / sort.SliceStable(xs, func(i, j) bool { return xs[i].K < xs[j].K }),
+// slices.SortFunc / SortStableFunc(xs, func(a, b T) int { return cmp.Compare(a.K, b.K) }) (also strings.Compare),
+// sort.Strings / sort.Ints / slices.Sort(xs).
+func sortSpecOf(info *types.Info, fi *FuncInfo, call *ast.CallExpr) *sortSpec {
+	full := fullName(calleeOf(info, call))
+	switch full {
+	case "sort.Strings", "sort.Ints", "sort.Float64s", "slices.Sort":
+		if len(call.Args) == 1 {
+			return &sortSpec{call: call, slice: call.Args[0], key: "$e", asc: true, api: full}
+		}
+		return nil
+	case "sort.Slice", "sort.SliceStable", "slices.SortFunc", "slices.SortStableFunc":
+	default:
+		return nil
+	}
+	if len(call.Args) != 2 {
+		return nil
+	}
+	sp := &sortSpec{call: call, slice: call.Args[0], api: full, stable: strings.Contains(full, "Stable")}
+	lit := comparatorLit(info, fi, call.Args[1])
+	if lit == nil || len(lit.Body.List) != 1 {
+		return sp
+	}
+	ret, ok := lit.Body.List[0].(*ast.ReturnStmt)
+	if !ok || len(ret.Results) != 1 {
+		return sp
+	}
+	var ps []types.Object
+	for _, f := range lit.Type.Params.List {
+		for _, nm := range f.Names {
+			ps = append(ps, info.Defs[nm])
+		}
+	}
+	if len(ps) != 2 {
+		return sp
+	}
+	sliceTxt := render(info, call.Args[0], nil)
+	// elemKey renders e with "the element at/for parameter p" replaced by $e; ok only if e mentions exactly that
+	elemKey := func(e ast.Expr, p types.Object) (string, bool) {
+		if strings.HasPrefix(full, "sort.") {
+			// xs[p] is the element
+			sub := map[types.Object]string{p: "\x00"}
+			s := render(info, e, sub)
+			el := sliceTxt + "[\x00]"
+			if !strings.Contains(s, el) || strings.Contains(strings.ReplaceAll(s, el, ""), "\x00") {
+				return "", false
+			}
+			return strings.ReplaceAll(s, el, "$e"), true
+		}
+		s := render(info, e, map[types.Object]string{p: "$e"})
+		return s, strings.Contains(s, "$e")
+	}
+	var x, y ast.Expr
+	res := ast.Unparen(ret.Results[0])
+	switch full {
+	case "sort.Slice", "sort.SliceStable":
+		be, ok := res.(*ast.BinaryExpr)
+		if !ok || (be.Op != token.LSS && be.Op != token.GTR) {
+			return sp
+		}
+		x, y = be.X, be.Y
+		sp.asc = be.Op == token.LSS
+	default:
+		c, ok := res.(*ast.CallExpr)
+		if !ok || len(c.Args) != 2 {
+			return sp
+		}
+		if f := fullName(calleeOf(info, c)); f != "cmp.Compare" && f != "strings.Compare" {
+			return sp
+		}
+		x, y = c.Args[0], c.Args[1]
+		sp.asc = true
+	}
+	kx, okx := elemKey(x, ps[0])
+	ky, oky := elemKey(y, ps[1])
+	if okx && oky && kx == ky {
+		sp.key = kx
+		return sp
+	}
+	// reversed operands: descending
+	kx, okx = elemKey(x, ps[1])
+	ky, oky = elemKey(y, ps[0])
+	if okx && oky && kx == ky {
+		sp.key = kx
+		sp.asc = !sp.asc
+	}
+	return sp
 }
